@@ -149,7 +149,9 @@ func ParseOptions(rawData []byte) (Options, error) {
 			return nil, ErrLength
 		}
 
-		value := rawData[p : p+int(vlen)]
+		// copy: the options must not alias the caller's buffer
+		value := make([]byte, vlen)
+		copy(value, rawData[p:p+int(vlen)])
 		p += int(vlen)
 
 		ops[Tag(tag)] = Option{
